@@ -37,7 +37,7 @@ def run(tier, seed, replay=None):
             add("ps3-par", isotrees.ps3_tree(rng), ps3=True, reopen=6, parallel=True)
             # PS3 mode with a PARAM.SFO of several keys around TITLE_ID, many opens at once
             for i in range(3 if not full else 12):
-                add("ps3-par-keys%d" % i, isotrees.ps3_tree(rng, "BLUS12345", rng.randrange(1, 6), rng.randrange(1, 6)), ps3=True, reopen=16, parallel=True,
+                add("ps3-par-keys%d" % i, isotrees.ps3_tree(rng, "BLUS12345", rng.randrange(1, 6), rng.randrange(1, 6)), ps3=True, reopen=16, parallel=True, burst=40,
                     titleId=["BLUS", "12345"])
             # later: time stamps change (and nothing else may)
             # other images are built in between (another directory, the same directory in the other mode)
